@@ -326,7 +326,8 @@ func c08ConcRun(c c08ConcCase) []*core.Violation {
 		limit = 150
 	}
 	if core.ReplayArg == "" && c08ConcRuns.Add(1) > limit {
-		return nil // the budget of this (expensive) variant per process is used up
+		rec.Skip() // the budget of this (expensive) variant per process is used up: not an evaluation
+		return nil
 	}
 	chain := signingChain(c.Key, false)
 	tc := &tls.Certificate{Certificate: [][]byte{chain.Leaf.Raw}, PrivateKey: chain.Key, Leaf: chain.Leaf}
